@@ -2,6 +2,7 @@
 filed under the class they were carved at (R-CLASS); RAII guards are tied to their pool (R-OWN +
 witnesses); freed chunks are handed back, never dropped (R-LINEAR); a live arena is never freed by
 an allocation path (R-ARENA)."""
+from vlib import fixtures
 import re
 
 from rules import linear, own, taint
@@ -17,6 +18,7 @@ SIZE_NAMES = ('size', 'align', 'count', 'len', 'alignment', 'capacity', 'n', 'ad
 
 def run(ctx):
     fx = ctx.facts("default")
+    fixtures.run(ctx, ['linear', 'taint'])
     # (1) request sizes are untrusted integers for the allocator entry points
     cl = taint.new_closure(fx)
     n = 0
